@@ -93,6 +93,24 @@ func acceptNames(v string) map[string]bool {
 	return out
 }
 
+// aeAllows: the Accept-Encoding header allows the coding - it names it with a non-zero quality, or carries a
+// wildcard with a non-zero quality and does not refuse the coding explicitly (q=0).
+func aeAllows(header, enc string) bool {
+	named := acceptNames(header)
+	if named[enc] {
+		return true
+	}
+	if !named["*"] {
+		return false
+	}
+	for _, part := range strings.Split(header, ",") {
+		if strings.EqualFold(strings.TrimSpace(strings.Split(part, ";")[0]), enc) {
+			return false // listed, but not accepted: refused with q=0
+		}
+	}
+	return true
+}
+
 var jsonpShape = regexp.MustCompile(`^___eio\[(\d*)\]\(("(?:[^"\\]|\\.)*")\);$`)
 
 func digitsOf(s string) string {
@@ -276,7 +294,7 @@ func sweepBody(cfg sweepCfg, prop string) vsched.Body {
 				if !r.wrote {
 					continue
 				}
-				if enc := r.Hdr.Get("Content-Encoding"); enc != "" && prop == "C01" && !acceptNames(r.Req.Header.Get("Accept-Encoding"))[enc] {
+				if enc := r.Hdr.Get("Content-Encoding"); enc != "" && prop == "C01" && !aeAllows(r.Req.Header.Get("Accept-Encoding"), enc) {
 					// a client can only undo a content coding it offered
 					fail("response-coding-not-offered[%s %s]: the response is coded with %q, the request offered %q: the client cannot recover the messages (%s)", car.kind, enc, enc, r.Req.Header.Get("Accept-Encoding"), cfg.id())
 				}
@@ -443,7 +461,7 @@ func sweepBody(cfg sweepCfg, prop string) vsched.Body {
 			if enc != "" {
 				compressed++
 				reqAE := r.Req.Header.Get("Accept-Encoding")
-				named := acceptNames(reqAE)
+				named := map[string]bool{enc: aeAllows(reqAE, enc)}
 				requested := batch != nil && (ri == 0 || requestedBy[fi-1])
 				switch {
 				case cfg.httpComp < 0:
@@ -676,7 +694,7 @@ func init() {
 						continue
 					}
 					enc := r.Hdr.Get("Content-Encoding")
-					if enc != "" && !acceptNames(aes[i])[enc] {
+					if enc != "" && !aeAllows(aes[i], enc) {
 						x.Fail("compressed-unnamed-coding%s: session %d's response has Content-Encoding %q, its request's Accept-Encoding is %q", cls, i+1, enc, aes[i])
 					}
 					pk, err := pcs[i].DecodeResp(r)
